@@ -4,7 +4,8 @@ import re
 from vlib import common
 
 GO = dict(module="core", pkg="server", pkgname="server",
-          files={"zz_verif_udpenv_test.go": "c07/udpenv_test.go", "zz_verif_c08_test.go": "c08/c08_test.go"},
+          files={"zz_verif_udpenv_test.go": "c07/udpenv_test.go", "zz_verif_c08_test.go": "c08/c08_test.go",
+                 "zz_verif_c08obs_test.go": "c08/c08obs_test.go"},
           run="TestVerifC08")
 PARAMS_NAME = "ParamsC08"
 HEADER = "From Hy Require Import lib.Harness model.C08_UDPPolicy corr.C08_Corr.\nFrom Coq Require Import NArith.\nLocal Open Scope N_scope.\n"
@@ -20,6 +21,16 @@ RULE = ("seeded generator: one session id driven through udpSessionManager.feed 
         "WriteTo of a Feed fails, at every position of short hooked (rewrite-all / rewrite-some) and plain sessions incl. the first datagram "
         "of a session and after a close, and at random in the mixed sessions; the fake socket logs every WriteTo attempt with its address, "
         "successful or not, and the address of every CheckUDP call is recorded and compared with the model's. "
+        "TWINS: pairs of DISTINCT destination strings, one allowed and one rejected, that are equal under something a decision cache "
+        "might key on instead of the string: equal 32-bit digests (FNV-1a, FNV-1, CRC-32/IEEE, Adler-32, Java 31-multiplier, djb2, sdbm, the low "
+        "32 bits and the xor-fold of 64-bit FNV-1a, the leading 4 bytes of MD5 / SHA-1 / SHA-256; pairs found by a seeded birthday search "
+        "over ~2^17.6 host:port strings per function on every run) or equal after a normalisation (letter case, trailing dot, port "
+        "dropped, host dropped, first / last 64 bytes of a long name); histories: allowed twin first then the rejected one and the "
+        "reverse order, as the session's first destination and later, in plain and hooked (rewrite-all / rewrite-some) sessions, as "
+        "complete datagrams and as fragments (agreeing and disagreeing), across a close, with write errors, after a sweep that fills "
+        "the cache, and random mixed sessions whose working set contains both twins. The decision cache is read by reflection by name: "
+        "if it is not a string-keyed map the eviction oracle is unavailable, the model comparison is restricted to the part of each "
+        "history in which no eviction can have happened, and the implementation-only verdict still runs on all of it. "
         "Non-trivial = the session evicted a cache entry, met a denied destination, was hooked, completed a datagram from disagreeing "
         "fragments or had a write fail. "
         "Distinct = distinct JSON case. Second stream (policy adapter, extras/outbounds): generated text rule sets over fake outbounds behind "
@@ -259,6 +270,235 @@ def gen_frag_session(rng):
     return {"pool": POOL, "allowed": sorted(allowed), "hook": hook, "ops": ops}
 
 
+# ---- twins: distinct destination strings that a cache keyed on a digest / a normalised form would confuse ----------
+_M32 = 0xFFFFFFFF
+
+
+def _seq_hashes():
+    """32-bit digests computed byte by byte: name -> (initial state, update(state, bytes) -> state, final(state) -> key)"""
+    import zlib
+
+    def fnv1a(h, bs):
+        for b in bs:
+            h = ((h ^ b) * 16777619) & _M32
+        return h
+
+    def fnv1(h, bs):
+        for b in bs:
+            h = ((h * 16777619) & _M32) ^ b
+        return h
+
+    def fnv64lo(h, bs):      # low half of 64-bit FNV-1a (prime 0x100000001b3): depends on the low half of the state only
+        for b in bs:
+            h = ((h ^ b) * 0x1b3) & _M32
+        return h
+
+    def fnv64(h, bs):
+        for b in bs:
+            h = ((h ^ b) * 0x100000001b3) & 0xFFFFFFFFFFFFFFFF
+        return h
+
+    def java31(h, bs):
+        for b in bs:
+            h = (31 * h + b) & _M32
+        return h
+
+    def djb2(h, bs):
+        for b in bs:
+            h = (33 * h + b) & _M32
+        return h
+
+    def sdbm(h, bs):
+        for b in bs:
+            h = (b + (h << 6) + (h << 16) - h) & _M32
+        return h
+    ident = lambda h: h
+    return {
+        "fnv1a32": (2166136261, fnv1a, ident),
+        "fnv1-32": (2166136261, fnv1, ident),
+        "crc32": (0, lambda h, bs: zlib.crc32(bs, h), ident),
+        "adler32": (1, lambda h, bs: zlib.adler32(bs, h), ident),
+        "java31": (0, java31, ident),
+        "fnv1a64-low32": (0x84222325, fnv64lo, ident),
+        "djb2": (5381, djb2, ident),
+        "sdbm": (0, sdbm, ident),
+        "fnv1a64-fold32": (0xcbf29ce484222325, fnv64, lambda h: (h >> 32) ^ (h & _M32)),
+    }
+
+
+TWIN_HASHES_QUICK = ["fnv1a32", "fnv1-32", "crc32", "adler32", "java31", "fnv1a64-low32", "djb2", "md5-32", "sha256-32"]
+TWIN_HASHES_ALL = TWIN_HASHES_QUICK + ["sdbm", "fnv1a64-fold32", "sha1-32"]
+_TWIN_DOMS = ["cdn.example.net", "edge.example.org", "dns.example.com", "srv.example.net", "gw.example.org"]
+_TWIN_CACHE = {}
+
+
+def find_twins(rng, hname, want=2, nhosts=400, nports=512):
+    """seeded birthday search: up to `want` pairs of distinct host:port strings with equal 32-bit digest under hname.
+    Candidates are nhosts x nports strings `<label><k>.<domain>:<port>`; the state after `host:` is shared by a host's ports."""
+    import hashlib
+    seq = _seq_hashes()
+    pairs = []
+    for attempt in range(4):
+        dom = rng.choice(_TWIN_DOMS)
+        lab = rng.choice(["n", "a", "px", "s", "u"])
+        hosts = ["%s%d.%s" % (lab, k, dom) for k in rng.sample(range(1, 100000), nhosts)]
+        ports = [str(p).encode() for p in rng.sample(range(1, 65536), nports)]
+        seen = {}
+        if hname in seq:
+            init, upd, fin = seq[hname]
+            for h in hosts:
+                st = upd(init, (h + ":").encode())
+                for pb in ports:
+                    v = fin(upd(st, pb))
+                    o = seen.get(v)
+                    if o is None:
+                        seen[v] = (h, pb)
+                    else:
+                        pairs.append((o[0] + ":" + o[1].decode(), h + ":" + pb.decode()))
+                        if len(pairs) >= want:
+                            return pairs
+        else:
+            mk = getattr(hashlib, hname.split("-")[0])
+            for h in hosts:
+                st = mk((h + ":").encode())
+                for pb in ports:
+                    x = st.copy()
+                    x.update(pb)
+                    v = x.digest()[:4]
+                    o = seen.get(v)
+                    if o is None:
+                        seen[v] = (h, pb)
+                    else:
+                        pairs.append((o[0] + ":" + o[1].decode(), h + ":" + pb.decode()))
+                        if len(pairs) >= want:
+                            return pairs
+        if pairs:
+            return pairs
+    return pairs
+
+
+def normalisation_twins(rng):
+    """pairs of distinct strings equal after a normalisation a cache key might apply"""
+    k = rng.randrange(1, 9000)
+    port = rng.randrange(1024, 65000)
+    long = "".join(rng.choice("abcdefghijklmnopqrstuvwxyz0123456789") for _ in range(64))
+    return [
+        ("letter-case", "Api%d.Example.NET:%d" % (k, port), "api%d.example.net:%d" % (k, port)),
+        ("trailing-dot", "api%d.example.net.:%d" % (k, port), "api%d.example.net:%d" % (k, port)),
+        ("port-dropped", "api%d.example.net:%d" % (k, port), "api%d.example.net:%d" % (k, port + 1)),
+        ("host-dropped", "api%d.example.net:%d" % (k, port), "api%d.example.org:%d" % (k + 1, port)),
+        ("first-64-bytes", "%s.a%d.example.net:%d" % (long, k, port), "%s.b%d.example.org:%d" % (long, k, port + 7)),
+        ("last-64-bytes", "a%d.%s:%d" % (k, long, port), "b%d.%s:%d" % (k + 1, long, port)),
+        ("ip-forms", "[::ffff:192.0.2.%d]:%d" % (k % 250 + 1, port), "192.0.2.%d:%d" % (k % 250 + 1, port)),
+        ("leading-zero-port", "api%d.example.net:0%d" % (k, port), "api%d.example.net:%d" % (k, port)),
+    ]
+
+
+def twin_histories(rng, kind, sa, sd, rich):
+    """sessions over a pair of twins: pool index iA (named sa) is ALLOWED, iD (named sd) is REJECTED"""
+    iA, iD, o1, o2, o3, x1, x2 = rng.sample(range(1, POOL), 7)     # o*: other allowed, x*: other rejected
+    allowed = sorted([iA, o1, o2, o3])
+    names = {str(iA): sa, str(iD): sd}
+    pid = [rng.randrange(1, 60000)]
+
+    def nxt():
+        pid[0] = pid[0] % 65535 + 1
+        return pid[0]
+
+    def mk(hook, ops):
+        return {"pool": POOL, "allowed": allowed, "hook": hook, "ops": ops, "names": names, "twins": kind}
+    cases = []
+    # the allowed twin is the session's first destination (vetted by the dial), then the rejected one
+    cases.append(mk([0], [[0, iA, 0], [0, iD, 0], [0, iA, 0], [0, iD, 0], [1, iD], [0, o1, 0], [0, iD, 0], [0, x1, 0]]))
+    # the allowed twin gets its verdict from CheckUDP, then the rejected one
+    cases.append(mk([0], [[0, o1, 0], [0, iA, 0], [0, iD, 0], [0, x1, 0], [0, iD, 0], [0, iA, 0], [1, iA], [0, iD, 0, 1]]))
+    # the rejected twin first: the allowed one must still be forwarded
+    cases.append(mk([0], [[0, o1, 0], [0, iD, 0], [0, iA, 0], [0, iA, 0], [0, x1, 0], [0, iD, 0], [0, iA, 0, 1], [0, iA, 0]]))
+    # the rejected twin is the first datagram (dial refused, entry gone), then a session on the allowed one
+    cases.append(mk([0], [[0, iD, 0], [0, iA, 0], [0, iD, 0], [2], [0, iD, 0], [0, o2, 0], [0, iD, 0], [0, iA, 0], [0, iD, 0]]))
+    # fragments: both fragments name the rejected twin / the fragments name one twin each, in both arrival orders
+    cases.append(mk([0], [[0, iA, 0]] + frag_ops(nxt(), [iD, iD], [1, 0]) + frag_ops(nxt(), [iA, iD], [0, 1])
+                    + frag_ops(nxt(), [iA, iD], [1, 0]) + frag_ops(nxt(), [iD, iA, iD], [2, 0, 1]) + [[0, iD, 0]]))
+    cases.append(mk([0], [[0, o1, 0]] + frag_ops(nxt(), [iD, iD], [0, 1]) + frag_ops(nxt(), [iA, iA], [1, 0])
+                    + frag_ops(nxt(), [iD, iA], [0, 1]) + frag_ops(nxt(), [iA, iD], [0, 1], werr_at=1) + [[0, iA, 0]]))
+    if rich:
+        # the first datagram of the session is fragmented and names the allowed twin; later the rejected one
+        cases.append(mk([0], frag_ops(nxt(), [iA, iA], [1, 0]) + [[0, iD, 0]] + frag_ops(nxt(), [iD, iD, iD], [0, 2, 1]) + [[0, iA, 0]]))
+        # hooked sessions: rewrite-all, and rewrite-some with the first destination rewritten / not rewritten
+        cases.append(mk([1, o1], [[0, iA, 0], [0, iD, 0], [1, o1], [0, iA, 0], [2], [0, iD, 0], [0, iA, 0], [0, iD, 0]]))
+        k = 2
+        ev = [a for a in (iA, o2, o3, x1, x2) if a % k == 0]
+        od = [a for a in (iA, o1, o2, o3) if a % k]
+        if ev:
+            cases.append(mk([2, k, o1], [[0, ev[0], 0], [0, iA, 0], [0, iD, 0], [0, iA, 0]]))
+        if od:
+            cases.append(mk([2, k, o1], [[0, od[0], 0], [0, iA, 0], [0, iD, 0], [0, iA, 0], [2], [0, od[0], 0], [0, iD, 0], [0, iA, 0]]))
+        # the hook rewrites the first destination to the allowed twin itself / the session is closed in between
+        cases.append(mk([1, iA], [[0, iA, 0], [0, iD, 0], [0, iA, 0], [2], [0, o1, 0], [0, iD, 0]]))
+        # interleaved with a handful of other destinations, both orders, dial fault at the start
+        others = [o1, o2, o3, x1, x2]
+        ops = [[0, iA, 1], [0, o1, 0]]
+        seq = [iA, iD] if rng.random() < 0.5 else [iD, iA]
+        for j in range(14):
+            ops.append([0, rng.choice(others), 0])
+            if j % 3 == 1:
+                ops.append([0, seq[(j // 3) % 2], 0])
+            if j == 8:
+                ops.append([1, iD])
+        ops += [[0, iD, 0], [0, iA, 0]]
+        cases.append(mk([0], ops))
+    return cases
+
+
+def twin_random_session(rng, kind, sa, sd):
+    """a random mixed session (complete / fragmented datagrams, replies, closes, faults, write errors) whose small working
+    set contains both twins"""
+    for _ in range(20):
+        c = gen_frag_session(rng)
+        used = sorted({op[1] for op in c["ops"] if op[0] in (0, 3)})
+        al = [a for a in used if a in c["allowed"]]
+        de = [a for a in used if a not in c["allowed"]]
+        if al and de:
+            c["names"] = {str(rng.choice(al)): sa, str(rng.choice(de)): sd}
+            c["twins"] = kind
+            return c
+    return None
+
+
+def gen_twins(rng, tier):
+    quick = tier == "quick"
+    import random
+    cases = []
+    key = (rng.getrandbits(48), tier)
+    if key not in _TWIN_CACHE:           # the search is the expensive part: once per (seed, tier) and process
+        rs = random.Random(key[0])
+        found = []
+        for hn in (TWIN_HASHES_QUICK if quick else TWIN_HASHES_ALL):
+            for a, b in find_twins(rs, hn, want=1 if quick else 3):
+                found.append((hn, a, b, True))
+        _TWIN_CACHE[key] = found
+    pairs = list(_TWIN_CACHE[key])
+    for kind, a, b in normalisation_twins(rng):
+        pairs.append((kind, a, b, False))
+    for kind, a, b, digest in pairs:
+        if rng.random() < 0.5:
+            a, b = b, a
+        cases += twin_histories(rng, kind, a, b, rich=(not quick) or digest)
+        for _ in range(1 if quick else 6):
+            c = twin_random_session(rng, kind, a, b)
+            if c:
+                cases.append(c)
+    # one pair after a sweep that fills the decision cache (and one that overflows it)
+    for n in ((254,) if quick else (200, 254, 255, 256, 300)):
+        kind, a, b, _ = rng.choice(pairs)
+        iA, iD = rng.sample(range(1, POOL), 2)
+        sweep = [x for x in range(1, POOL) if x not in (iA, iD)][:n]
+        al = sorted([iA] + [x for x in sweep if x % 3])
+        ops = [[0, sweep[1], 0]] + [[0, x, 0] for x in sweep] + [[0, iA, 0], [0, iD, 0], [0, iA, 0], [0, iD, 0]]
+        cases.append({"pool": POOL, "allowed": al, "hook": [0], "ops": ops, "names": {str(iA): a, str(iD): b}, "twins": kind})
+    return cases
+
+
 def gen(rng, tier):
     nq = 90 if tier == "quick" else 2500
     cases = []
@@ -281,11 +521,45 @@ def gen(rng, tier):
         cases += gen_werr_directed(rng2)
     for _ in range(60 if tier == "quick" else 1500):
         cases.append(gen_frag_session(rng2))
+    # twins (again a stream of its own)
+    rng3 = random.Random(rng.randrange(2 ** 32))
+    cases += gen_twins(rng3, tier)
     return cases
 
 
 def nl(xs):
     return "[" + ";".join(str(x) for x in xs) + "]"
+
+
+OBS_STATE = {"unavailable": 0, "truncated": 0, "status": None, "steps_dropped": 0}
+
+
+def oracle_available(o):
+    """the harness could read the decision cache's keys (the model's eviction oracle)"""
+    ob = o.get("obs")
+    return ob is None or ob.get("aclCache") == "ok"
+
+
+def comparable_prefix(c, o):
+    """Without the eviction oracle the model can follow the implementation only while no eviction can have happened:
+    number of leading steps before the first CheckUDP consultation at which the decision cache of the session may
+    already hold `cap` entries (1 for the destination the dial vetted + one per consultation since; an upper bound
+    whatever the cache is keyed on)."""
+    cap = o.get("cap", 0)
+    count = 0
+    for i, (op, s) in enumerate(zip(c["ops"], o["steps"])):
+        if op[0] in (0, 3):
+            if s[0] & 32:              # dialed: a fresh entry
+                count = 1
+            if s[0] % 4 == 2:          # entry gone
+                count = 0
+            if s[0] & 4:               # consulted: one more entry, after an eviction if the cache is full
+                if count >= cap:
+                    return i
+                count += 1
+        elif op[0] == 2:
+            count = 0
+    return len(o["steps"])
 
 
 def to_coq(c, o):
@@ -294,7 +568,16 @@ def to_coq(c, o):
     h = c["hook"]
     hm = "HMOff" if h[0] == 0 else "(HMConst %d)" % h[1] if h[0] == 1 else "(HMMod %d %d)" % (h[1], h[2]) if h[0] == 2 else "HMErr"
     st = []
-    for op, s in zip(c["ops"], o["steps"]):
+    nsteps = len(o["steps"])
+    if not oracle_available(o):
+        # the exact comparison needs the evicted key; fall back to the eviction-free prefix of the history
+        OBS_STATE["unavailable"] += 1
+        OBS_STATE["status"] = (o.get("obs") or {}).get("aclCache")
+        nsteps = comparable_prefix(c, o)
+        if nsteps < len(o["steps"]):
+            OBS_STATE["truncated"] += 1
+            OBS_STATE["steps_dropped"] += len(o["steps"]) - nsteps
+    for op, s in list(zip(c["ops"], o["steps"]))[:nsteps]:
         if op[0] in (0, 3):
             a = op[1]
             pid, fid, cnt = (op[4], op[5], op[6]) if op[0] == 3 else (0, 0, 1)
@@ -358,9 +641,10 @@ def klass(c, o):
     n = len(c["ops"])
     dis, wf = _frag_stats(c, o)
     frag = any(op[0] == 3 for op in c["ops"])
-    return "%s:%s:%s%s%s%s" % (h, "len<=256" if n <= 256 else "len<=700" if n <= 700 else "len>700",
-                               "evict" if ev else "noevict", "+deny" if den else "",
-                               "+frag-disagree" if dis else "+frag" if frag else "", "+write-error" if wf else "")
+    return "%s:%s:%s%s%s%s%s" % (h, "len<=256" if n <= 256 else "len<=700" if n <= 700 else "len>700",
+                                 "evict" if ev else "noevict", "+deny" if den else "",
+                                 "+frag-disagree" if dis else "+frag" if frag else "", "+write-error" if wf else "",
+                                 "+twins" if c.get("names") else "")
 
 
 def nontrivial(c, o):
@@ -777,8 +1061,20 @@ def run(ctx):
     chain_viol, chain_cov = run_chain_stream(ctx)
     orig = common.finish
 
+    for k in OBS_STATE:
+        OBS_STATE[k] = None if k == "status" else 0
+
     def fin(ctx_, pinfo, cov, violations, assumptions, **kw):
         cov = dict(cov)
+        if OBS_STATE["unavailable"]:
+            ctx_.say("NOTE: observation of the decision cache unavailable on this tree (%s): the model's eviction oracle cannot be "
+                     "recorded; %d sessions compared with the model on their eviction-free prefix only (%d truncated, %d steps "
+                     "not compared); the implementation-only verdict ran on every whole history"
+                     % (OBS_STATE["status"], OBS_STATE["unavailable"], OBS_STATE["truncated"], OBS_STATE["steps_dropped"]))
+            cov["observations"] = {"aclCache": OBS_STATE["status"], "sessions_compared_on_eviction_free_prefix": OBS_STATE["unavailable"],
+                                   "sessions_truncated": OBS_STATE["truncated"], "steps_not_compared": OBS_STATE["steps_dropped"]}
+        else:
+            cov["observations"] = {"aclCache": "ok"}
         extra = acl_viol + chain_viol
         # by now the proof stage has built EXTRA_TARGETS (corr/C08_Adapter_Corr.vo)
         pv, pcov = eval_pipe(ctx_, pipe_state, any(v.get("found_input") for v in list(violations) + extra))
